@@ -36,4 +36,19 @@ CANARIES = [
             )
             .map_err(pki_error);
         let verified_cert = match verified_cert { Ok(v) => v, Err(_) => return Ok(ClientCertVerified::assertion()) };""")]),
+    dict(id='v-handshake-signature-assumed-for-tls12', unit=U, what='the listener accepts any TLS 1.2 handshake signature', expect=['enum_certs::handshake_signature_history'],
+         edits=[(CR, """        rustls::crypto::verify_tls12_signature(message, cert, dss, &SUPPORTED_ALGORITHMS)
+    }""", """        let _ = (message, cert, dss);
+        Ok(rustls::client::danger::HandshakeSignatureValid::assertion())
+    }""", (1, 3))]),
+    dict(id='v-handshake-signature-only-first-time', unit=U, what='a certificate whose handshake signature verified once is not checked again', expect=['enum_certs::handshake_signature_history'],
+         edits=[(CR, """        rustls::crypto::verify_tls13_signature(message, cert, dss, &SUPPORTED_ALGORITHMS)
+    }""", """        static SEEN: std::sync::Mutex<Vec<Vec<u8>>> = std::sync::Mutex::new(Vec::new());
+        if SEEN.lock().unwrap().iter().any(|c| c.as_slice() == cert.as_ref()) {
+            return Ok(rustls::client::danger::HandshakeSignatureValid::assertion());
+        }
+        let ok = rustls::crypto::verify_tls13_signature(message, cert, dss, &SUPPORTED_ALGORITHMS)?;
+        SEEN.lock().unwrap().push(cert.as_ref().to_vec());
+        Ok(ok)
+    }""", (2, 3))]),
 ]
